@@ -685,6 +685,9 @@ impl PartialEq for Value {
             (&ValueRepr::String(ref a, _), &ValueRepr::String(ref b, _)) => a == b,
             (&ValueRepr::SmallStr(ref a), &ValueRepr::SmallStr(ref b)) => a.as_str() == b.as_str(),
             (&ValueRepr::Bytes(ref a), &ValueRepr::Bytes(ref b)) => a == b,
+            (&ValueRepr::Invalid(ref a), &ValueRepr::Invalid(ref b)) => {
+                a.to_string() == b.to_string()
+            }
             // `coerce` cannot represent u128 values above i128::MAX.
             (&ValueRepr::U128(a), &ValueRepr::U128(b)) => ({ a.0 }) == ({ b.0 }),
             _ => match ops::coerce(self, other, false) {
@@ -875,6 +878,9 @@ impl Ord for Value {
                 a.as_str().cmp(b.as_str())
             }
             (&ValueRepr::Bytes(ref a), &ValueRepr::Bytes(ref b)) => a.cmp(b),
+            (&ValueRepr::Invalid(ref a), &ValueRepr::Invalid(ref b)) => {
+                a.to_string().cmp(&b.to_string())
+            }
             // `coerce` represents two u128 values as i128, which reverses the
             // order if only one of them exceeds i128::MAX.
             (&ValueRepr::U128(a), &ValueRepr::U128(b)) => { a.0 }.cmp(&{ b.0 }),
